@@ -42,7 +42,7 @@ NormW(j) ==
    led |-> [swept |-> j.led.swept, radjN |-> j.led.radjN, radjL |-> j.led.radjL,
             paid |-> FnOf(j.led.paid, LAMBDA r : r.b, LAMBDA r : r.x),
             wdl |-> FnOf(j.led.wdl, LAMBDA r : r.b, LAMBDA r : r.x),
-            deliv |-> j.led.deliv, honest |-> j.led.honest, forced |-> j.led.forced],
+            deliv |-> j.led.deliv, honest |-> j.led.honest, forced |-> j.led.forced, repointed |-> j.led.repointed],
    now |-> j.now,
    t |-> [inst |-> j.t.inst, admin |-> j.t.admin, pending |-> j.t.pending, minTime |-> j.t.minTime,
           trader |-> j.t.trader, routes |-> j.t.routes]]
